@@ -691,15 +691,14 @@ func (m *Message) GetDialog() (string, error) {
 	if err != nil {
 		return "", err
 	}
-	if from_addr_s < to_addr_s {
-		return NewDialog(callId,
-			fmt.Sprintf("%s-%s", from_tag, from_addr_s),
-			fmt.Sprintf("%s-%s", to_tag, to_addr_s)).String(), nil
+	// order the two (tag, address) halves themselves, so both directions of
+	// a dialog give the same identifier even if From and To have the same URI
+	from_half := fmt.Sprintf("%s-%s", from_tag, from_addr_s)
+	to_half := fmt.Sprintf("%s-%s", to_tag, to_addr_s)
+	if from_half < to_half {
+		return NewDialog(callId, from_half, to_half).String(), nil
 	} else {
-		return NewDialog(callId,
-			fmt.Sprintf("%s-%s", to_tag, to_addr_s),
-			fmt.Sprintf("%s-%s", from_tag, from_addr_s)).String(), nil
-
+		return NewDialog(callId, to_half, from_half).String(), nil
 	}
 }
 
